@@ -147,6 +147,9 @@ def concretise(doc, flags=()):
         nxt = nodes[i + 1]["d"] if i + 1 < len(nodes) else 0
         tag = nd["tag"]
         txt = nd.get("text")
+        if tag == "#chars":
+            out.append(nd.get("text", "x"))      # character data (only inside text content)
+            continue
         if tag == "#comment":
             out.append("<!-- noise -->")
             continue
@@ -160,7 +163,7 @@ def concretise(doc, flags=()):
         elif tag == "foreign":
             tag = "foo:bar"
             extra.append(("xmlns:foo", "http://example.com/foo"))
-        elif tag == "text":
+        elif tag == "text" and not (nxt > nd["d"]):
             txt = "hello"
         elif tag == "style":
             txt = ".a{fill:red}"
@@ -174,7 +177,22 @@ def concretise(doc, flags=()):
     while stack:
         out.append("</%s>" % stack.pop()[1])
     out.append("</svg>")
-    text = ("\n  " if "ws" in flags else "").join(out)
+    if "ws" in flags:
+        # inter-element whitespace only: inside text content white space is character data, not noise
+        pieces, depth_in_text = [], 0
+        for item in out:
+            closing_text = item in ("</text>",)
+            sep = "" if (depth_in_text > 0 and not False) else "\n  "
+            if pieces and not (depth_in_text > 0):
+                pieces.append("\n  ")
+            pieces.append(item)
+            if item.startswith("<text") and not item.endswith("/>"):
+                depth_in_text += 1
+            elif closing_text:
+                depth_in_text -= 1
+        text = "".join(pieces)
+    else:
+        text = "".join(out)
     if "xmldecl" in flags:
         text = '<?xml version="1.0" encoding="UTF-8"?>\n' + text
     return text
@@ -539,16 +557,16 @@ def structure(svg_text):
     def text_node(depth, s):
         if s and s.strip():
             nodes.append({"d": depth, "k": "text", "ns": "svg", "tag": "#text", "at": [], "toks": [],
-                          "fillref": [], "gnum": []})
+                          "fillref": [], "gnum": [], "txt": list(s.strip())})
 
     def walk(el, depth):
         if el.tag is etree.Comment:
             nodes.append({"d": depth, "k": "comment", "ns": "svg", "tag": "#comment", "at": [],
-                          "toks": [], "fillref": [], "gnum": []})
+                          "toks": [], "fillref": [], "gnum": [], "txt": []})
             return
         if el.tag is etree.ProcessingInstruction or not isinstance(el.tag, str):
             nodes.append({"d": depth, "k": "pi", "ns": "svg", "tag": "#pi", "at": [], "toks": [],
-                          "fillref": [], "gnum": []})
+                          "fillref": [], "gnum": [], "txt": []})
             return
         q = etree.QName(el.tag)
         at = []
@@ -582,7 +600,7 @@ def structure(svg_text):
                 for k, v in enumerate(_tf6(el.attrib["gradientTransform"])):
                     gnum.append(["gt%d" % k, _micro(v)])
         nodes.append({"d": depth, "k": "el", "ns": "svg" if q.namespace == SVGNS else "other",
-                      "tag": q.localname, "at": at, "toks": toks, "fillref": fillref, "gnum": gnum})
+                      "tag": q.localname, "at": at, "toks": toks, "fillref": fillref, "gnum": gnum, "txt": []})
         text_node(depth + 1, el.text)
         for ch in el:
             walk(ch, depth + 1)
